@@ -145,7 +145,7 @@ End Call.
 (* ------------------------------------------------------------------ *)
 (** * Names mentioned *)
 
-Fixpoint fnames_e (e : expr N) : list N :=
+Fixpoint fnames_e {C} (e : expr C) : list C :=
   match e with
   | EConst _ | EVar _ | EArg | EDeref _ => []
   | EAdd a b | ESub a b | EMul a b => fnames_e a ++ fnames_e b
@@ -161,13 +161,13 @@ Fixpoint vnames_e {C} (e : expr C) : list N :=
   | ECall _ a => vnames_e a
   end.
 
-Definition fnames_s (s : stmt N) : list N :=
+Definition fnames_s {C} (s : stmt C) : list C :=
   match s with
   | SAssign _ e | SStoreP _ e | SPrint e | SExpr e => fnames_e e
   | SSetPtr _ _ => []
   end.
 
-Definition fnames_d (d : fdef N) : list N := flat_map fnames_s (fst d) ++ fnames_e (snd d).
+Definition fnames_d {C} (d : fdef C) : list C := flat_map fnames_s (fst d) ++ fnames_e (snd d).
 
 Definition fnames_i (i : item) : list N :=
   match i with
